@@ -271,6 +271,12 @@ def execLine (r : RS) (line : String) : RS :=
     match parseFlag "nest" n, parseFlag "trim" t with
     | some (some n), some (some t) => { r with pops := Dict.set r.pops p { nest := n, trim := t } }
     | _, _ => bad
+  | ["pop", p, n, t, spell] =>
+    -- `root=<spelling>`: how the program spells the root (trailing separator, relative, '.', '').  The
+    -- model works on the listing relative to the root: the spelling is normalised away and ignored.
+    match parseFlag "nest" n, parseFlag "trim" t, stripPrefix "root=" spell with
+    | some (some n), some (some t), some _ => { r with pops := Dict.set r.pops p { nest := n, trim := t } }
+    | _, _, _ => bad
   | ["rule", p, d, f, e, a] =>
     match Dict.get? r.pops p, parsePathTok d, (stripPrefix "fac=" f).bind String.toNat?,
           stripPrefix "exts=" e, stripPrefix "args=" a with
